@@ -148,4 +148,36 @@ op('reduce_min', 'reduce', C09, ALL, 'b', 's', 'xsimd::reduce_min(a)', WS.reduce
 op('reduce', 'reduce', C09, ALL, 'b', 's', 'xsimd::reduce([](B_<{T}> x, B_<{T}> y) {{ return B_<{T}>(ext_f_{TN}(x, y)); }}, a)', WS.reduce_generic_spec, whole=True)
 op('haddp', 'reduce', C09, FPS, 'p', 'b', 'xsimd::haddp(reinterpret_cast<const B_<{T}>*>(p))', WS.haddp_spec, whole=True)
 
+# ---- C05 ---------------------------------------------------------------------
+from . import masks as MK
+C05 = ['C05']
+
+
+def _nl(ty, cfg):
+    return cfg.bits // ty.bits
+
+
+op('swizzle', 'move_swz', C05 + ['C19'], ALL, 'b', 'b', 'xsimd::swizzle(a, xsimd::batch_constant<{U}, A, {V}>{{}})', WS.swizzle_spec, whole=True,
+   variants=lambda ty, cfg, tier: [{'V': tuple(v)} for v in MK.swizzle_masks(_nl(ty, cfg), tier, 'swz')])
+op('shuffle', 'move_shf', C05 + ['C19'], ALL, 'bb', 'b', 'xsimd::shuffle(a, b, xsimd::batch_constant<{U}, A, {V}>{{}})', WS.shuffle_spec, whole=True,
+   variants=lambda ty, cfg, tier: [{'V': tuple(v)} for v in MK.swizzle_masks(_nl(ty, cfg), tier, 'shf', True)])
+op('zip_lo', 'move', C05, ALL, 'bb', 'b', 'xsimd::zip_lo(a, b)', WS.zip_spec(False), whole=True)
+op('zip_hi', 'move', C05, ALL, 'bb', 'b', 'xsimd::zip_hi(a, b)', WS.zip_spec(True), whole=True)
+op('slide_left', 'move', C05 + ['C19'], INTS, 'b', 'b', 'xsimd::slide_left<{N}>(a)', WS.slide_spec(True), whole=True,
+   variants=lambda ty, cfg: [{'N': k} for k in range(0, cfg.bits // 8 + 1)])
+op('slide_right', 'move', C05 + ['C19'], INTS, 'b', 'b', 'xsimd::slide_right<{N}>(a)', WS.slide_spec(False), whole=True,
+   variants=lambda ty, cfg: [{'N': k} for k in range(0, cfg.bits // 8 + 1)])
+op('rotate_left', 'move', C05 + ['C19'], ALL, 'b', 'b', 'xsimd::rotate_left<{N}>(a)', WS.rotate_spec(True), whole=True,
+   variants=lambda ty, cfg: [{'N': k} for k in range(0, _nl(ty, cfg))])
+op('rotate_right', 'move', C05 + ['C19'], ALL, 'b', 'b', 'xsimd::rotate_right<{N}>(a)', WS.rotate_spec(False), whole=True,
+   variants=lambda ty, cfg: [{'N': k} for k in range(0, _nl(ty, cfg))])
+op('extract_pair', 'move', C05, ALL, 'bb', 'b', 'xsimd::extract_pair(a, b, {i})', WS.extract_pair_spec, whole=True,
+   variants=lambda ty, cfg: [{'i': k} for k in range(0, _nl(ty, cfg))])
+op('insert', 'move', C05 + ['C04', 'C19'], ALL, 'bs', 'b', 'xsimd::insert(a, s, xsimd::index<{I}>())', WS.insert_spec, whole=True,
+   variants=lambda ty, cfg: [{'I': k} for k in range(0, _nl(ty, cfg))])
+op('compress', 'move_cx', C05, ALL, 'b', 'b', 'xsimd::compress(a, M_<{T}>::from_mask({m}ull))', WS.compress_spec, whole=True,
+   variants=lambda ty, cfg, tier: [{'m': m} for m in MK.bitmasks(_nl(ty, cfg), tier, 'cmp')])
+op('expand', 'move_cx', C05, ALL, 'b', 'b', 'xsimd::expand(a, M_<{T}>::from_mask({m}ull))', WS.expand_spec, whole=True,
+   variants=lambda ty, cfg, tier: [{'m': m} for m in MK.bitmasks(_nl(ty, cfg), tier, 'exp')])
+
 BY_NAME = dict((o.name, o) for o in OPS)
